@@ -31,15 +31,37 @@ def frac_val(fr):
     return z3.RealVal(str(fr.numerator)) / z3.RealVal(str(fr.denominator)) if fr.denominator != 1 else z3.RealVal(str(fr.numerator))
 
 
+def _simplest_between(lo, hi):
+    """the fraction with the smallest denominator in the closed interval [lo, hi] (0 < lo <= hi), Stern-Brocot / continued fractions"""
+    fl = lo.numerator // lo.denominator
+    if Fraction(fl) == lo or fl + 1 <= hi:
+        return Fraction(fl) if Fraction(fl) >= lo else Fraction(fl + 1)
+    r = _simplest_between(1 / (hi - fl), 1 / (lo - fl))
+    return fl + 1 / r
+
+
 def lift_float(v):
-    """A1: a concrete float met by a symbol is read as the simplest rational (den <= 10^4) that rounds to it,
-    else as the decimal its shortest repr spells."""
+    """A1: a concrete float met by a symbol is read as the real number it stands for: a float whose shortest repr has at
+    most 13 significant digits is that decimal (literals); otherwise (a float COMPUTED from constants before it met a
+    symbol, carrying rounding noise) it is the simplest rational within two units in the last place (0.1 + 0.2 is 3/10,
+    7.0 * 0.004028 is 7049/250000, 10/9 is 10/9), or, if no simple one exists (denominator > 10^7), its repr decimal."""
     if v != v or v in (float('inf'), float('-inf')):
         raise EngineError('non-finite float meets a symbol')
-    f = Fraction(v).limit_denominator(10 ** 4)
-    if float(f) == v:
-        return z3.Q(f.numerator, f.denominator)
-    f = Fraction(Decimal(repr(float(v))))
+    if v == 0:
+        return z3.RealVal(0)
+    import math
+    a = abs(v)
+    d = Decimal(repr(float(a)))
+    if len(d.as_tuple().digits) <= 13:
+        f = Fraction(d)                      # a short decimal: the literal (or exactly representable value) it spells
+    else:
+        ulp = math.ulp(a)
+        fa = Fraction(a)
+        f = _simplest_between(fa - 2 * Fraction(ulp), fa + 2 * Fraction(ulp)) if fa > 2 * Fraction(ulp) else fa
+        if f.denominator > 10 ** 7:
+            f = Fraction(d)
+    if v < 0:
+        f = -f
     return z3.Q(f.numerator, f.denominator)
 
 
